@@ -107,7 +107,7 @@ func c13Oversize(c *core.Ctx, rule, pk string) {
 		var good []ssa.Instruction
 		fl := ssax.NewFlow()
 		for _, st := range sts {
-			if fl.OnlyFrom(st.Val, init.Params[1].Name()+"."+f.from) {
+			if fl.OnlyFrom(st.Val, paramOf(init, 1).Name()+"."+f.from) {
 				good = append(good, st)
 			}
 		}
@@ -151,7 +151,7 @@ func c13(c *core.Ctx) {
 	c.Analysed(fname(rc))
 	sts := storesToField(rc, "persistence/queue.InitOptions.ReadBytesLimit")
 	for i, st := range sts {
-		c.Check(fl.OnlyFrom(st.Val, rc.Params[2].Name()+".opts.ClientMaxPacketSize"), "C13.R1", fmt.Sprintf("registerClient|ReadBytesLimit#%d", i), ipos(c, st), "queue limit = client's Maximum Packet Size", fmt.Sprintf("the queue's read limit is %s, not the client's Maximum Packet Size", fl.Show(st.Val)))
+		c.Check(fl.OnlyFrom(st.Val, paramOf(rc, 2).Name()+".opts.ClientMaxPacketSize"), "C13.R1", fmt.Sprintf("registerClient|ReadBytesLimit#%d", i), ipos(c, st), "queue limit = client's Maximum Packet Size", fmt.Sprintf("the queue's read limit is %s, not the client's Maximum Packet Size", fl.Show(st.Val)))
 	}
 	c.Check(len(sts) >= 2, "C13.R1", "registerClient|ReadBytesLimit-both-arms", fpos(c, rc), "limit passed on resume and on new session", fmt.Sprintf("registerClient must pass ReadBytesLimit on both the resume and the new-session Init (found %d)", len(sts)))
 	cw := p.Func("server", "(*client).connectWithTimeOut")
@@ -373,7 +373,7 @@ func c13(c *core.Ctx) {
 	// initial value and cap
 	okInit := false
 	for _, st := range storesToField(cw, "server.client.serverReceiveMaximumQuota") {
-		if fl.OnlyFrom(st.Val, cw.Params[0].Name()+".opts.ReceiveMax") {
+		if fl.OnlyFrom(st.Val, paramOf(cw, 0).Name()+".opts.ReceiveMax") {
 			okInit = true
 		}
 	}
